@@ -25,7 +25,7 @@ import (
 
 func init() { commands["c03"] = c03Run }
 
-const c03HeaderLimit = 300 * time.Millisecond
+const c03HeaderLimit = 800 * time.Millisecond
 
 // tlsboth: TLS listener and https upstream - neither end of the tunnel is a plain TCP connection, so the copy
 // goes through the buffered path and not through splice / ReadFrom
